@@ -5,7 +5,10 @@ prop = sys.argv[1]
 ev = json.load(open(f'/verif/evidence/{prop}.json'))
 hits = ev['coverage'].get('known_finding_hits', {})
 p = f'/verif/known_findings.d/{prop}.json'
-kf = json.load(open(p))['findings']
+if os.path.exists(p):
+    kf = json.load(open(p))['findings']
+else:    # merged file
+    kf = [k for k in json.load(open('/verif/known_findings.json'))['findings'] if k['property'] == prop]
 for i, k in enumerate(kf):
     print(i, k.get('status', 'known'), k.get('commit', '-'), hits.get(k['what'], 0), '|', k['what'][:110])
 print('violations', ev.get('violations'), 'wall', ev.get('wall_s'))
